@@ -66,10 +66,10 @@ type fsScope struct {
 type fsTr struct {
 	t        *fsTarget
 	consts   map[string]string
-	used     map[string]int    // Lean base name -> number of declarations so far
+	used     map[string]int // Lean base name -> number of declarations so far
 	scope    *fsScope
-	named    []string          // named results (Go names)
-	assigned map[string]int    // Go identifier -> number of assignments after its declaration
+	named    []string       // named results (Go names)
+	assigned map[string]int // Go identifier -> number of assignments after its declaration
 	usedCons map[string]bool
 	out      strings.Builder
 	hasDefer bool
